@@ -151,6 +151,22 @@ def campaign(c):
     for port in ['0', '65535', '65536', '65537', '131072', '18446744073709551615', '18446744073709551616', '-1', '0x10']:
         check(c, ['let', 'a', '=', '1.2.3.4', ':', port, ';'], 'port')
         check(c, ['f', '(', '1.2.3.4', ':', port, ')', ';'], 'port')
+    # scale: each recursive construct of the grammar repeated n times ("nested to any depth"): '/' chains (all pending operators
+    # are reduced on the one token that follows the chain), nested calls, argument lists, module paths, member chains
+    for n in ([1, 2, 5, 16, 17, 18, 19, 20, 39, 40, 41, 64, 150] if c.quick else list(range(1, 70)) + [100, 150, 300, 1000]):
+        for opnd in (['1'], ['a'], ['f', '(', ')'], ['"s"']):
+            chain = list(opnd)
+            for _ in range(n): chain += ['/'] + opnd
+            check(c, ['let', 'x', '='] + chain + [';'], 'scale-slash')
+            check(c, ['f', '(', 'k', ':'] + chain + [',', '2', ')', ';'], 'scale-slash')
+        check(c, ['f', '('] * n + ['1'] + [')'] * n + [';'], 'scale-nest')
+        check(c, ['f', '('] * n + [')'] * n + [';'], 'scale-nest')
+        check(c, ['f', '('] + ['1', ','] * n + [')', ';'], 'scale-args')
+        check(c, ['f', '('] + ['k', ':', '1', ','] * (n - 1) + ['k', ':', '1', ')', ';'], 'scale-args')
+        check(c, ['a'] + ['::', 'b'] * n + [';'], 'scale-path')
+        check(c, ['a'] + ['.', 'b'] * n + ['(', ')', ';'], 'scale-member')
+        check(c, ['a', '::', 'b'] + ['.', 'c'] * n + ['/'] + ['a'] + ['::', 'b'] * n + [';'], 'scale-mixed')
+        check(c, (['import', 'a', ';'] * n) + ['let', 'x', '=', '1', ';'] * n, 'scale-stmts')
     # examples shipped with the repository that exercise the grammar
     for f in ('calls', 'refs', 'assignments'):
         src = open('/repo/examples/%s.rsyn' % f, 'rb').read()
